@@ -18,7 +18,9 @@ ID = "C06"
 THM_MODULES = ["Minicbor.Thm.C06"]
 P = "Minicbor.C06."
 # ---------------------------------------------------------------- FILLED IN BY THE PROOF AUTHOR
-REQUIRED = []
+REQUIRED = [P + n for n in """skip_exact skip_no_panic skip_ext skip_prefix_err skip_prefix_err'
+noalloc_lockstep noalloc_refines noalloc_exact noalloc_exact_or_unsupported noalloc_prefix_err
+skip_fuel_adequate skip_stack_le_consumed""".split()]
 # ----------------------------------------------------------------------------------------------
 PACKAGES = ["hcore"]
 
